@@ -111,8 +111,16 @@ def check(ctx, rec):
     # ---- firmware triggers
     trig = {}
     n_trig = 0
+    walk = {}             # combination index -> set of (fn, task, set, p3, offset)
+    combos = {}
     for l in rf.stdout.splitlines():
         t = l.split()
+        if t and t[0] == "W":
+            combos[int(t[1])] = (int(t[2], 16), int(t[3]))
+            continue
+        if t and t[0] == "T" and int(t[1]) < 0:
+            walk.setdefault(-1 - int(t[1]), set()).add((int(t[2]), int(t[4]) & 0xff, t[3], int(t[4]), int(t[5])))
+            continue
         if t and t[0] == "T":
             task, fn, sset, p3, off = int(t[1]), int(t[2]), t[3], int(t[4]), int(t[5])
             if (p3 & 0xff) != task:
@@ -121,6 +129,34 @@ def check(ctx, rec):
             n_trig += 1
     if "DONE" not in rf.stdout:
         raise HarnessError("firmware driver did not finish")
+    # continuous operation with several tasks enabled at once must trigger exactly what each task triggers alone
+    single = {}
+    for l in rf.stdout.splitlines():
+        t = l.split()
+        if t and t[0] == "T" and int(t[1]) >= 0:
+            single.setdefault(int(t[1]), set()).add((int(t[2]), t[3], int(t[4]), int(t[5])))
+    n_walk = 0
+    for ci, (mask, start) in sorted(combos.items()):
+        got = walk.get(ci, set())
+        n_walk += len(got)
+        exp = set()
+        by_fn = {}
+        for task in range(29):
+            if mask & (1 << task):
+                for (f0, sset, p3, off) in single.get(task, ()):
+                    by_fn.setdefault(f0, []).append((task, sset, p3, off))
+        for k in range(CYCLE + 3000):
+            fn = (start + k) % 2715648
+            for (task, sset, p3, off) in by_fn.get(fn % CYCLE, ()):
+                exp.add((fn, task, sset, p3, off))
+        # the first frames after enabling are subject to the 'safe frame' rule: compare from 10 frames after the start
+        skip = set((start + k) % 2715648 for k in range(10))
+        got_c = set(x for x in got if x[0] not in skip)
+        exp_c = set(x for x in exp if x[0] not in skip)
+        if got_c != exp_c:
+            d = sorted(got_c ^ exp_c)[:4]
+            fail("c11:fw:continuous-operation-differs", "tasks 0x%08x enabled together, walked from frame %d: differs from the per-task triggers at %r" % (mask, start, d),
+                 {"combination": ci, "mask": mask})
     # ---- trxcon tables
     E, P = {}, {}
     lay = {}
@@ -214,7 +250,7 @@ def check(ctx, rec):
                              task, sset, "/SACCH" if sacch else "", lname, tn, d, ch, per,
                              [x for x in fwf if x not in lay_frames][:6] or fwf[:6], [x for x in lay_frames if x not in fwf][:6] or lay_frames[:6]),
                          {"task": task, "set": sset, "layout": lname, "tn": tn, "dir": d, "chan": ch})
-    rec.bulk(n_trig + n_rows + n_cmp + len(lay), n_rows + n_cmp, {"fw-triggers": n_trig, "trxcon-table-rows": n_rows,
+    rec.bulk(n_trig + n_rows + n_cmp + len(lay) + n_walk, n_rows + n_cmp, {"fw-continuous-walk-triggers": n_walk, "fw-triggers": n_trig, "trxcon-table-rows": n_rows,
                                                                  "correspondence-comparisons": n_cmp, "layout-lookups": len(lay)}, samples)
     rec.exhaustive = True
     return fails
